@@ -97,7 +97,7 @@ func runC06(c *ev.Ctx) {
 	})
 	defer webp.VerifSetWorkers(nil)
 	pc := newPairCover()
-	n := c.N(1600, 14000)
+	n := c.N(4000, 250000)
 	var cases []ev.Case
 	for i := 0; i < n; i++ {
 		r := rng(c, i)
